@@ -127,6 +127,9 @@ def _prepare_home(base, scenario, stamp=None):
         for k in ("plot_split", "save_traj_in_zip", "ros_map_alpha_value"):
             cfg.pop(k)
         cfg["plot_linewidth"] = 7.5  # a user value
+        import zlib as _z
+        for k in range([0, 3, 5, 2][_z.crc32((base + "legacy").encode()) % 4]):
+            cfg["setting_removed_in_a_later_release_%d" % k] = k  # (as many / more obsolete keys as new ones are missing)
         open(os.path.join(evo, "settings.json"), "w").write(json.dumps(cfg, indent=4, sort_keys=True))
         # the stamp of the release that wrote the home (varies with the cell: older and newer
         # releases, one- and two-digit components, a stamp without the leading "v", a newer one
@@ -345,6 +348,13 @@ def count_events(run, scenario, layout="plain"):
     try:
         home = prepare_home(base, scenario, layout, stamp=OLD_STAMPS[0])
         rc, info, err = child(home, [scenario, "count"])
+        if info and rc in (1, 3):
+            # the scenario itself, run to completion on a prepared home, fails (rc 3: the process
+            # does not see every default key; rc 1: evo raised): that is the property, not the harness
+            run.violation("uninterrupted:%s-fails" % scenario,
+                          "scenario %s [%s] run to completion without any interference exits with %d: %s" %
+                          (scenario, layout, rc, (info.get("err") or "")[:200]), run.case("nocrash", 10**6, scenario=scenario, stamp=OLD_STAMPS[0]))
+            return None, []
         if rc != 0 or not info:
             raise core.Inconclusive("cannot count the events of scenario %s (rc=%s %s)" % (scenario, rc, err))
         writes = [i for i, t in enumerate(info["trace"]) if t.startswith("CALL") and t.endswith(".write")]
@@ -364,6 +374,8 @@ def main(run):
     counts = {}
     for sc in SCENARIOS:
         n, writes = count_events(run, sc)
+        if n is None:
+            continue
         counts[sc] = n
         dense = run.tier == "thorough" or sc in ("import", "upgrade", "set")
         for K in range(n + 1):
@@ -378,6 +390,8 @@ def main(run):
             if layout == "symlink_dir" and sc == "set_dotdot":
                 continue  # '..' from inside a symlinked ~/.evo is the link target's parent: no such file
             n, writes = count_events(run, sc, layout)
+            if n is None:
+                continue
             counts["%s [%s]" % (sc, layout)] = n
             for K in range(n + 1):
                 if run.tier == "thorough" or K % 2 == 0 or any(abs(K - w) <= 2 for w in writes):
